@@ -58,7 +58,7 @@ for be in BACKS:
             Part(SM, [], 'void internal_start ( Event const & incomingEvent )'),
             'void internal_start(fsm_t* self, event_t incomingEvent)', 'cascade_back.spec.h', defines=[d],
             xform=xf([dict(name='SPEC-first', pat='region_start_helper < int_ < 0 > > :: do_start (', rep='regions_do_start ( 0 ,', min=1, max=1), PCE]),
-            also_replace=['process_completion_event'], replay=['compl']))
+            also_replace=['process_completion_event'], replay=['queue']))
     UNITS.append(Unit(be + '.do_exit', ['C02', 'C05', 'C07', 'C08', 'C13'], be,
         Part(SM, [], 'void do_exit ( Event const & incomingEvent , FsmType & fsm )'),
         'void do_exit(fsm_t* self, event_t incomingEvent, fsm_t* fsm)', 'cascade_back.spec.h',
@@ -89,7 +89,7 @@ for be in BACKS:
             'void direct_event_start(fsm_t* self, event_t evt, fsm_t* fsm)', 'cascade_back.spec.h', defines=['ENTRY_KIND=%d' % kind], also_replace_if_present=['regions_do_entry'],
             xform=back_xform(['get_state_id', 'find_region_id'], refparams=('fsm',), rewrites=DERIVED + DES,
                              throwers=['Derived_on_entry', 'internal_start', 'process_event'], exc_ret=''),
-            replay=['entry', 'hist']))
+            replay=['hist', 'sel']))
 START_RW = DERIVED + [dict(PCE, min=0),
     dict(name='FOREACH-functor-init', pat='for_each < seq_initial_states , wrap < _1 > > ( init_states ( self -> m_states ) ) ;', rep='init_states_foreach ( self ) ;', min=0, max=1),
     dict(name='FOREACH-functor-callinit0', pat='for_each < initial_states , wrap < _1 > > ( call_init < fsm_initial_event > ( fsm_initial_event ( ) , self ) ) ;', rep='call_init_foreach ( self , fsm_initial_event ( ) ) ;', min=0, max=1),
